@@ -278,6 +278,24 @@ MUTANTS = [
      "[] treated like 'keep the block'"),
 ]
 
+# ---------------------------------------------------------------- behaviour-preserving refactorings (controls: every check must stay silent)
+# `old` = "*" means: `new` is a list of (regex, replacement) pairs applied to the whole file.
+REFACTORINGS = [
+    ("refactor-rename-field-value-attr", "ALL", M, "*", [(r"\b_value\b", "_val")], "private attribute Field/String/Preamble._value renamed to _val"),
+    ("refactor-rename-next-mark", "ALL", S, "*", [(r"\b_next_mark\b", "_advance_to_mark"), (r"\b_unaccepted_mark\b", "_pending")], "internal scanner method and put-back slot renamed"),
+    ("refactor-abort-messages", "ALL", S, "*", [(r"Unexpected block start", "New block started"), (r"Expected a `=` after entry key", "Missing `=` after the field key"),
+                                                 (r"Unexpectedly reached end of file\.", "Input ended inside a block.")], "wording of abort reasons changed"),
+    ("refactor-library-private-names", "ALL", L, "*", [(r"\b_entries_by_key\b", "_entry_index"), (r"\b_strings_by_key\b", "_string_index"), (r"\b_blocks\b", "_items")],
+     "private containers of Library renamed"),
+    ("refactor-internal-exception-relay", "ALL", S, "*",
+     [(r"        comma_mark = self\._next_mark\(accept_eof=False\)\n",
+       "        try:\n            comma_mark = self._next_mark(accept_eof=False)\n        except BlockAbortedException as first:\n"
+       "            # relay: same reason and end, new exception object\n            raise BlockAbortedException(abort_reason=first.abort_reason, end_index=first.end_index)\n")],
+     "an abort is caught and re-raised as a new exception object inside the splitter (two raise origins per failed block)"),
+    ("refactor-transform-builds-library-stepwise", "ALL", MW, "*", [(r"        return Library\(blocks=blocks\)", "        result = Library()\n        result.add(blocks)\n        return result")],
+     "BlockMiddleware.transform builds the result with Library() + add(list)"),
+]
+
 # fix up the two placeholders that need multi-line context
 def _fix():
     out = []
@@ -298,4 +316,4 @@ def _fix():
 
 
 MUTANTS = _fix()
-CONTROLS = {"c01-no-progress", "c03-line-not-advanced-crlf", "c02-close-brace-in-quotes", "c02-hash-value-trim"}
+CONTROLS = {"c01-no-progress", "c03-line-not-advanced-crlf", "c02-close-brace-in-quotes", "c02-hash-value-trim"} | {r[0] for r in REFACTORINGS}
